@@ -16,9 +16,17 @@ recorded through the engine's own `sim.control.on_event` seam + the model's list
   uuid.uuid4 is never replaced (only counted)                                                              (e)
 
 "Fresh interpreter" for ref/hashseed is a fork of a per-hash-seed zygote that has only imported the library
-(simkit/c03_child.py) — cheap enough to do for every run; the sampled fresh-spawn runs and the confirmation of every
-difference use real subprocesses.  The worker process that calls run() never executes a model itself, so the verdict
-does not depend on the worker's own hash seed or history.
+(simkit/c03_child.py); literal subprocesses are used on a sample of runs and to confirm every difference.  The worker process
+that calls run() never executes a model itself, so the verdict does not depend on the worker's own hash seed or history.
+
+Two schedules.  thorough: one subject per scenario with the full table above (0-3 preceding models, all clocks, one or both
+other hash seeds).  quick (cheap, process creation is what costs): a *cohort* of 8 different models per scenario, all judged,
+in two interpreters — A (hash seed 0): every member once (the first member is the first thing a fresh interpreter does), then
+every member again, now after all the others ran there and under its fake wall clock; B (hash seed 4242): the members in
+rotated order (another member is first).  10 % of the cohorts also run in a literal subprocess with hash seed 1 (reversed
+order).  A member that differs anywhere is then judged alone with the single-subject schedule in literal subprocesses with
+full logs, which yields the same signatures as the thorough schedule; of several differing members the first one whose
+signature is not a recorded finding is reported.
 
 Any digest difference is a violation  C03/<model>:<variant>/<first differing thing>/<perturbation kind>.
 """
@@ -46,13 +54,15 @@ SELFTEST_RUNS = 3
 SHRINK_BUDGET_S = {"quick": 30.0, "thorough": 60.0}
 SHRINK_SKIP = ("params", "model")
 RULE = (
-    "each case = one of 34 zoo models (sources->servers, all queue policies incl. RED/CoDel/Balking, lossy/jittered Network, "
+    "quick: each case = a cohort of 8 different zoo models (all judged; 40 cohorts = 320 model/seed pairs, every model >= 3 "
+    "seeds), two interpreters per cohort + sampled literal subprocesses; thorough: each case = one of 34 zoo models (sources->servers, all queue policies incl. RED/CoDel/Balking, lossy/jittered Network, "
     "Raft, Paxos, Multi-/Flexible-Paxos, leader-election strategies, SWIM, LSM+WAL, BTree, CachedStore x 10 eviction "
     "configurations, SoftTTL, MultiTier, sharded/replicated store, primary-backup, chain, multi-leader, CRDTStore gossip, "
     "MessageQueue+DLQ, Topic, EventLog+ConsumerGroup, rate limiters, load-balancer strategies, sketch collectors fed strings, "
     "industrial line, behaviour agents, pre-built events, retrying client, disk/router) with generated parameters and user "
     "seed, 0-3 other zoo models that run earlier in the same interpreter, and a perturbation plan; non-trivial = the "
-    "reference run delivered >= 30 events and >= 3 perturbed runs were compared with it; distinct = distinct reference digests"
+    "reference run delivered >= 30 events (cohort: >= 300 in total) and >= 3 (cohort: >= 2 per member) perturbed runs were compared "
+    "with it; distinct = distinct reference digests"
 )
 STATE_MEASURE = "distinct (model, variant = categorical parameters selecting the code path, deliveries bucket) tuples"
 REAL = ["every happysimulator component named in simkit/c03_zoo.py (34 model builders): core.Simulation/Event/Source, "
